@@ -351,4 +351,72 @@ theorem connection_one_frame_per_response (t : Transport) (steps : List Step)
 example : (Builder.mk 7 false 0 1 2 [47, 97] [49]).build.WF ∧ (Builder.mk 7 false 0 1 2 [47, 97] [49]).build.header.notify = 0 :=
   ⟨Builder.build_wf _ (by decide) (by decide) (by decide) (by decide) (by decide), rfl⟩
 
+/-! ### where the limit comes from: `WebSocketLimits`, constructors, defaults -/
+
+/-- The construction and plumbing facts read off the source: `Default` = the two default constants with the
+assumed limit equal to the default *frame* size, `unlimited()` clears everything, each setter sets its
+own field, the guard reads `assumed_peer_frame_limit`, the transport gets only the two incoming fields,
+and server / proxy / client hand the configured value (or `default()`) to their guard. -/
+theorem config_facts :
+    let c := Gen.configFacts
+    c.defaultIsDefaults = true ∧ c.unlimitedIsNone = true ∧ c.settersSetOwnField = true ∧
+    c.guardReadsAssumed = true ∧ c.transportGetsIncomingOnly = true ∧ c.serverThreadsLimits = true ∧
+    c.proxyThreadsLimits = true ∧ c.clientThreadsLimits = true := by decide
+
+/-- An endpoint constructed without limits (`WebSocketServer::new`, `proxy_connection`,
+`WebSocketClient::connect`) guards at `DEFAULT_MAX_FRAME_SIZE` (whatever its value; 16 MiB today). -/
+theorem endpoints_without_limits_guard_at_default (ep : Endpoint) :
+    effectiveLimit Gen.configFacts ep none = some Gen.configFacts.defaultFrame := by
+  obtain ⟨h1, _, _, h4, _, h6, h7, h8⟩ := config_facts
+  cases ep <;> simp [effectiveLimit, LimitsExpr.eval, defaultLimits, h1, h4, h6, h7, h8]
+
+/-- With explicit limits the guard works with exactly the configured assumption: the last
+`with_assumed_peer_frame_limit(b)` wins, a literal's own field otherwise, `unlimited()` switches the
+guard off, and the incoming-side fields never influence it. -/
+theorem explicit_limits_are_used (ep : Endpoint) (e : LimitsExpr) (b : Option Nat) (l : WsLimits) :
+    effectiveLimit Gen.configFacts ep (some (.assumed e b)) = b ∧
+    effectiveLimit Gen.configFacts ep (some (.lit l)) = l.assumedPeer ∧
+    effectiveLimit Gen.configFacts ep (some .unlimited) = none ∧
+    effectiveLimit Gen.configFacts ep (some (.lit { l with maxIncomingFrame := b, maxIncomingMessage := b })) =
+      l.assumedPeer := by
+  obtain ⟨_, h2, h3, h4, _, h6, h7, h8⟩ := config_facts
+  cases ep <;> simp [effectiveLimit, LimitsExpr.eval, withAssumed, unlimitedLimits, h2, h3, h4, h6, h7, h8]
+
+/-- The assumed peer limit is repe's own: it never reaches the transport's configuration, and setting
+it leaves the transport's read-side thresholds alone. -/
+theorem assumed_limit_not_in_transport_config (l : WsLimits) (b : Option Nat) :
+    transportConfig Gen.configFacts l = (l.maxIncomingFrame, l.maxIncomingMessage) ∧
+    transportConfig Gen.configFacts (withAssumed Gen.configFacts l b) = transportConfig Gen.configFacts l := by
+  obtain ⟨_, _, h3, _, h5, _⟩ := config_facts
+  simp [transportConfig, withAssumed, h3, h5]
+
+/-- **End to end, server / proxy / client, any configuration expression.** Whatever limits expression the
+endpoint was built with (or none), every binary message it sends is within the assumption that
+expression evaluates to (premise: that limit can carry the error reply). -/
+theorem configured_endpoint_never_exceeds (given : Option LimitsExpr) (L : Nat) (qs : List Queued)
+    (ops : List (Bool × Message))
+    (hs : effectiveLimit Gen.configFacts .server given = some L)
+    (hfit : ∀ q ∈ qs, 48 + (text q.msg.toVec.length L).length ≤ L)
+    (hfitm : 48 + (text m.toVec.length L).length ≤ L) :
+    (∀ bs ∈ (writerRun Gen.limitFacts (effectiveLimit Gen.configFacts .server given) text qs).1, bs.length ≤ L) ∧
+    (∀ bs, proxyForward Gen.limitFacts (effectiveLimit Gen.configFacts .proxy given) text m cap rcap = some bs →
+      bs.length ≤ L) ∧
+    (∀ bs ∈ (ops.foldl (fun s (o : Bool × Message) =>
+        (if o.1 then clientNotify Gen.limitFacts (effectiveLimit Gen.configFacts .client given) s o.2
+         else clientCall Gen.limitFacts (effectiveLimit Gen.configFacts .client given) s o.2).1) ⟨[], []⟩).wire,
+      bs.length ≤ L) := by
+  have hsame : ∀ ep, effectiveLimit Gen.configFacts ep given = some L := by
+    obtain ⟨_, _, _, h4, _, h6, h7, h8⟩ := config_facts
+    intro ep
+    have : effectiveLimit Gen.configFacts ep given = effectiveLimit Gen.configFacts .server given := by
+      cases ep <;> simp [effectiveLimit, h4, h6, h7, h8]
+    rw [this, hs]
+  refine ⟨?_, ?_, ?_⟩
+  · rw [hs]; exact writer_never_exceeds text L qs hfit
+  · intro bs hb; rw [hsame .proxy] at hb; exact proxy_never_exceeds text m cap rcap L bs hfitm hb
+  · rw [hsame .client]; exact client_never_exceeds L ops ⟨[], []⟩ (by simp)
+
+example : effectiveLimit Gen.configFacts .server (some (.assumed .dflt (some 4096))) = some 4096 ∧
+    effectiveLimit Gen.configFacts .client none = some (16 <<< 20) := by decide
+
 end Repe.C17
